@@ -36,3 +36,16 @@ func (q *OutQueue) VerifAddChunk(data []byte) {
 	_ = q.addChunk(data)
 	q.checkQueueFull()
 }
+
+// VerifForgetAcks empties the memory of acknowledged numbers (used when a test moves an established pair to other sequence numbers).
+func (q *OutQueue) VerifForgetAcks() {
+	q.mutex.Lock()
+	q.acked = nil
+	q.mutex.Unlock()
+}
+
+func (q *InQueue) VerifForgetAcks() {
+	q.mutex.Lock()
+	q.acked = nil
+	q.mutex.Unlock()
+}
